@@ -396,6 +396,12 @@ fn short_repo_path(p: &str) -> String {
     }
 }
 
+/// idempotent variant for fuzz targets (called at the top of every iteration)
+pub fn install_panic_hook_once() {
+    static ONCE: std::sync::Once = std::sync::Once::new();
+    ONCE.call_once(install_panic_hook);
+}
+
 pub fn install_panic_hook() {
     let default = panic::take_hook();
     panic::set_hook(Box::new(move |info| {
